@@ -11,7 +11,7 @@ From WebP Require Import Lib.Res Lib.Arr Model.AlphaBlend Model.Anim Spec.Anim
   Proofs.Anim_play Proofs.Anim_history Properties.C06.
 From WebP Require Spec.Container Spec.Anim Model.AlphaBlend Model.Anim Model.ReadImage Model.ReadImageOps Model.Vp8Decode
   Proofs.Container_bytes Proofs.Anim_play Proofs.Anim_history Proofs.ReadImage_anim Proofs.ReadImage_ops
-  Proofs.VP8_decode_readimage Proofs.ReadImage_ops_closed Proofs.Container_fits Proofs.Anim_history_safe.
+  Proofs.VP8_decode_readimage Proofs.ReadImage_ops_closed Proofs.Container_fits Proofs.Anim_history_safe Proofs.ReadImage_ops_safe.
 Import ListNotations.
 Open Scope Z_scope.
 
@@ -168,4 +168,14 @@ Module HC.
               exists b, nth_error tr i = Some (RoFrame (Err ENoMoreFrames), b)
                         /\ b = Anim_history.buffer_before (Model.Anim.run_ops F ops Model.Anim.fresh_state buf) i buf).
   Proof. intros c ms Hwf Ha HF. exact (ReadImage_ops_closed.clauses_from_file_closed c ms Hwf Ha HF (Container_fits.wf_canvas_fits c Hwf)). Qed.
+  (* from the file bytes, frame decoder instantiated: no call of any call sequence panics, exhausts fuel, or fails with anything but NoMoreFrames
+     (ocall_clean accepts exactly RoFrame (Ok _), RoFrame (Err ENoMoreFrames), RoImage (Ok _) _, RoReset (Ok _), RoFill) *)
+  Theorem calls_never_fail_from_file_closed :
+    forall (c : container) (ms : list Model.Anim.mframe),
+      wf c = true -> anim c = true -> Forall2 (frame_decodes_spec (fst (dims c)) (snd (dims c))) (frames c) ms ->
+      exists dec, Container_bytes.M.new (serialize c) = Ok dec /\
+        forall ops buf, len buf = buffer_size c ->
+          Forall (fun rb => ReadImage_ops_safe.ocall_clean (fst rb))
+                 (ReadImageOps.run_ops Model.Vp8Decode.decode_frame dec ops (initial_fstate dec) buf).
+  Proof. exact ReadImage_ops_safe.calls_never_fail_from_file_closed. Qed.
 End HC.
